@@ -30,3 +30,10 @@ const EmbeddedAsset *Assets_findStatic(const Assets *self, iora_sv path);
 bool Assets_isExternalPath(const Assets *self, iora_sv path);
 StaticCacheEntry G_embedded_entry;                              /* stands for the compiled-in bytes of an embedded asset */
 static inline iora_blob embeddedBlob(EmbeddedAsset a, iora_sv path) { (void)a; (void)path; iora_blob b; b.entry = &G_embedded_entry; return b; }
+
+/* readFile(<path expression>): by-value wrapper so that an rvalue argument (e.g. the result of a filesystem call) can be handed on; the call
+ * inside is replaced by readFile's contract, i.e. the ordering clause O1 is checked for WHATEVER path value is passed */
+static inline iora_optstr Assets_readFile_v(iora_path p) { return Assets_readFile(&p); }
+/* non-POSIX arm of readFile: std::ifstream f(p, mode) opens BY NAME and follows a symlinked final component: open(2) without O_NOFOLLOW */
+static inline int iora_ifstream_open(iora_path p) { int fd = iora_sys_open(&p, O_RDONLY); return fd >= 0; }
+static inline void iora_read_loop_absent(const char *what) { (void)what; }
